@@ -20,12 +20,17 @@ ALPH = ["A", "b", " ", "/", ":", "*", "?", "[", "]", "\\", "'", "-", "Z", "o", "
 
 
 def gen_labels(rng):
-    n = rng.randint(1, 9)
-    base = "".join(rng.choice(ALPH) for _ in range(rng.choice([0, 3, 10, 28, 31, 33, 40])))
+    many = rng.random() < 0.2          # enough collisions on one stem to reach two- and three-digit suffixes
+    n = rng.choice([11, 14, 23, 104]) if many and rng.random() < 0.97 else rng.randint(1, 9)
+    if many and n == 104 and rng.random() < 0.8:
+        n = 12
+    base = "".join(rng.choice(ALPH) for _ in range(rng.choice([0, 3, 10, 26, 27, 28, 31, 33, 40])))
     out = []
     for _ in range(n):
         r = rng.random()
-        if r < 0.45:
+        if many and r < 0.9:
+            out.append(base if r < 0.6 else base[:31] + rng.choice(["x", "y", "'", " ", ""]) * (len(base) >= 31))
+        elif r < 0.45:
             out.append(base)                                   # collisions
         elif r < 0.6:
             out.append(base[:31] + rng.choice(["x", "y", "'", " "]))     # same 31-char prefix
